@@ -43,6 +43,17 @@ NEEDS = {
  "C17b": ("snps.vcf: genotype indices computed against ALT in first-appearance order while ALT is printed sorted", "ska lo -r, a site with >= 2 non-reference alleles whose alphabetically larger ALT appears first among the samples"),
  "C18b": ("same idea as seeded/C18, found independently: allele strings chosen with >=, bitsets with >", "an indel carried by exactly half of the samples"),
  "C19b": ("merge(): later inputs loaded on a prefetch thread; a load error only closes the channel", "ska merge a.skf DAMAGED.skf c.skf: exits 0 and writes a file with a's samples only"),
+ # third batch: scale / numeric boundary / dispatch / output writing
+ "C01c": ("u128 rev_comp: nibble-swap mask literal two hex digits short (same site as seeded/C16, found independently)", "k = 63, two-strand mode, a k-mer built from scratch whose reverse complement is canonical"),
+ "C02c": ("u128 rev_comp: 16-bit-swap mask one group short, bits 96-127 dropped", "k >= 51, two-strand mode: a record and its reverse complement give different dictionaries"),
+ "C03c": ("get_input_list sorts (and dedups) the input samples by name", "ska build with sample names not in byte-wise sorted order (e.g. s1..s10, or zeta/alpha/mid): samples come out in name order, not input order"),
+ "C04c": ("RefKmer pos/chrom narrowed to u32/u16 with `as` casts", "a reference with more than 65536 records and a match on a contig with index >= 65536"),
+ "C05c": ("write_vcf skips sites where all samples equal the reference, comparing 8 samples at a time and ignoring the remainder", ">= 9 samples, count not a multiple of 8, a site that differs only in the last n % 8 samples"),
+ "C06c": ("Align arm, 128-bit branch passes DEFAULT_CONSTGAPS instead of --no-gap-only-sites", "k >= 33, --no-gap-only-sites with a constant-site filter and a base-versus-gap-only site"),
+ "C07c": ("Merge arm opens <output>.skf (create, no truncate) before loading the inputs", "a refused merge: exit status non-zero as before, but an empty output file is left behind"),
+ "C08c": ("delete: positional names get value_delimiter = ','", "a sample name containing a comma passed on the command line"),
+ "C09c": ("Weed arm, 128-bit branch ignores -o and overwrites the input", "k >= 33 file, ska weed ... -o OUT.skf"),
+ "C10c": ("update_counts sums presence in a u8", "a file with >= 256 samples and a k-mer present in >= 256 of them, followed by delete/align/distance/weed"),
  "C20b": ("CoverageHistogram::new: break instead of skip at the first read without a valid split k-mer", "a read shorter than k or with every N-free stretch shorter than k, followed by more reads in the same file"),
 }
 HISTORY = {
@@ -52,6 +63,11 @@ HISTORY = {
  "C09b": "missed by the version of the C09/C10 checks that existed when it was written (an emptied table was never merged); C09's CLI stage now merges the possibly empty filtered file in both orders and C10 histories continue with merges after the table became empty",
  "C15b": "outside what the C15 check observed when it was written (lookup tables and stored codes only); the weights_in_use stage (pairwise distances over tables with ambiguity codes vs the uniform-weight model) was added and reports it",
  "C03b": "reported by C01 and C02 but missed by C03 itself (sample files were written unwrapped); C03 now wraps sample FASTA files at generated widths",
+ "C03c": "reported by C02 and C07 when written, but missed by C03 itself (its sample names smp0..smp9 were already in sorted order); C03 and the shared sample-set generator now use names that are not in sorted order",
+ "C04c": "missed when written (references had at most 5 contigs); the large_reference stages now include references with more than 65536 contigs",
+ "C05c": "missed when written (1-4 samples); a sixth of the C04/C05 cases now have 9-12 samples",
+ "C08c": "missed when written (names were s0..s7); the shared sample-set generator now uses names with a comma, a dot, '=', '#' and '-' inside",
+ "C10c": "missed when written (at most 12 samples in histories); C10 has a wide_tables stage with 255-513 samples",
  "C17": "missed by the first version of the C17 check (ska lo was always run with the default -m or 0.4); the -m values 0, 0.05, 0.4, 1 were added to the isolated-SNP stages and now report it",
 }
 res = {}
